@@ -193,9 +193,9 @@ static size_t vg_fwrite(const void *ptr, size_t size, size_t nmemb, FILE *stream
 /* ASSUME: fflush writes nothing new. */
 static int vg_fflush(FILE *stream) { (void) stream; return 0; }
 
-/* vprintf / vfprintf and the other libc ways of writing to the terminal are not used by the three files; a
-   (future) use must not escape silently as a body-less call, so each of these names is turned into an
-   undeclared identifier: the harness then fails to compile (engine: undecided, exit 2) until it is modelled. */
+/* Other libc ways of writing to the terminal are not used by the three files; a (future) use must not escape silently as
+   a body-less call, so each of these names is turned into an undeclared identifier VG_SINK_NOT_MODELLED_<name>: a call to
+   it shows up as a failed "no body" obligation, which the engine classifies as undecided (exit 2) until it is modelled. */
 #define VG_POISON(name) VG_SINK_NOT_MODELLED_##name
 #define write            VG_POISON(write)
 #define pwrite           VG_POISON(pwrite)
@@ -217,8 +217,41 @@ static int vg_fflush(FILE *stream) { (void) stream; return 0; }
 #define syslog           VG_POISON(syslog)
 #define printf(...)          vg_out(NULL, VG_ARGS(__VA_ARGS__))
 #define fprintf(stream, ...) vg_out(stream, VG_ARGS(__VA_ARGS__))
-#define vprintf   VG_SINK_NOT_MODELLED_vprintf
-#define vfprintf  VG_SINK_NOT_MODELLED_vfprintf
+/* vprintf / vfprintf: checking sinks over a va_list (same obligations as vg_out: literal format text is the program's own,
+   every %s argument must be printable ASCII, %c likewise; numeric conversions are ASCII by the libc contract).
+   ASSUME: libc vfprintf formats as printf does (see vg_out). */
+static int vg_vfprintf(FILE *stream, const char *fmt, va_list ap)
+{
+	size_t i = 0;
+	int n = 0;
+	(void) stream;
+	__CPROVER_assert(fmt != NULL, "C08 sink: format is not NULL");
+	while (fmt[i] != 0) {
+		char c = fmt[i++];
+		if (c != '%') {
+			if (!vg_quiet) __CPROVER_assert(VG_OWN_BYTE(c), "C18 sink: format text is printable ASCII or LF/CR/TAB (a literal of the program)");
+			n++;
+			continue;
+		}
+		while (fmt[i] == '-' || fmt[i] == '0' || fmt[i] == ' ' || fmt[i] == '+' || fmt[i] == '#') i++;
+		__CPROVER_assert(fmt[i] != '*', "[stub-limit] sink stub: '*' width not used by the tool");
+		while (fmt[i] >= '0' && fmt[i] <= '9') i++;
+		if (fmt[i] == '.') { i++; __CPROVER_assert(fmt[i] != '*', "[stub-limit] sink stub: '*' precision not used by the tool"); while (fmt[i] >= '0' && fmt[i] <= '9') i++; }
+		while (fmt[i] == 'l' || fmt[i] == 'h' || fmt[i] == 'z') i++;
+		c = fmt[i++];
+		if (c == '%') { n++; continue; }
+		if (c == 's') { const char *a = va_arg(ap, const char *); n += (int) vg_check_printable(a); }
+		else if (c == 'c') { int a = va_arg(ap, int); if (!vg_quiet) __CPROVER_assert(VG_OWN_BYTE(a) && a >= 0 && a <= 255, "C18 sink: %c argument is printable ASCII or LF/CR/TAB"); n++; }
+		else if (c == 'd' || c == 'i' || c == 'u' || c == 'x' || c == 'X' || c == 'o') { (void) va_arg(ap, long long); n += 1; }
+		else if (c == 'f') { (void) va_arg(ap, double); n += 1; }
+		else { __CPROVER_assert(0, "[stub-limit] sink stub: conversion not modelled (extend vg_print.h)"); }
+	}
+	vg_sunk++;
+	return n;
+}
+static int vg_vprintf(const char *fmt, va_list ap) { return vg_vfprintf(NULL, fmt, ap); }
+#define vprintf   vg_vprintf
+#define vfprintf  vg_vfprintf
 #define fputs    vg_fputs
 #define puts     vg_puts
 #undef putchar
